@@ -729,7 +729,7 @@ Definition op_dom (st : rstate) (o : op) : bool :=
   | OBit _ n => (0 <=? n) && (n <? 4194304)
   | OLStruct h i | OPLAt h i | OBitAt h i => in_len st h i
   | OUintAt h i n => in_len st h i && in_width n
-  | ORoot | OText _ | OData _ | OInfo _ | ORLimit | OWalk _ _ _ _ | OReset _ => true
+  | ORoot | OText _ | OData _ | OInfo _ | ORLimit | OWalk _ _ _ _ | OReset _ | OResetLimit _ | OUnread _ => true
   end.
 
 Fixpoint run_dom (c : config) (fx : fixes) (m : segs) (st : rstate) (ops : list op) : bool :=
@@ -818,6 +818,9 @@ Proof.
     split; [exact Hwf|exact H].
   - (* reset: the handle pool is emptied *)
     split; [constructor|]. cbn [snd oval_ok]. discriminate.
+  - (* ResetReadLimit / Unread: handles unchanged *)
+    split; [exact Hwf|]. cbn [snd oval_ok]. discriminate.
+  - split; [exact Hwf|]. cbn [snd oval_ok]. discriminate.
 Qed.
 
 (* All read-side API call sequences: no observation is a panic and every handle ever
@@ -933,3 +936,30 @@ Lemma index_panics fd fu p i exp :
   (list_struct fd p i = Panic <-> (p_valid p = false \/ i < 0 \/ i >= p_len p)) /\
   (primitiveElem fu p i exp = Panic <-> (p_valid p = false \/ i < 0 \/ i >= p_len p)).
 Proof. split; [exact (list_struct_panic_iff fd p i)|exact (primitiveElem_panic_iff fu p i exp)]. Qed.
+
+(* ------------------------------------------------------------------ non-vacuity (used by Properties_C01) *)
+(* a struct with one data word, a text field "hi" and a composite list of two structs *)
+Definition rd_ex_msg : segs :=
+  [[0;0;0;0;1;0;2;0;  42;0;0;0;0;0;0;0;  5;0;0;0;26;0;0;0;  5;0;0;0;23;0;0;0;
+    104;105;0;0;0;0;0;0;  8;0;0;0;1;0;0;0;  1;0;0;0;0;0;0;0;  2;0;0;0;0;0;0;0]].
+Definition rd_ex_ops : list op :=
+  [ORoot; OSPtr 0 0; OText 1; OSPtr 0 1; OLStruct 2 1; OUint 3 0 4; OWalk 0 8 8 10; ORLimit].
+Definition rd_ex_cfg := mkCfg 1000 4 true true.
+Definition rd_ex_fix := mkFix true true true.
+
+Lemma rd_ex_hypotheses :
+  msg_ok rd_ex_msg /\ run_dom rd_ex_cfg rd_ex_fix rd_ex_msg (init_state rd_ex_cfg) rd_ex_ops = true.
+Proof.
+  split; [|vm_compute; reflexivity].
+  repeat constructor; cbn; try lia; unfold maxSegmentSize; lia.
+Qed.
+
+Lemma rd_ex_run :
+  exists p0 p1 p2 p3,
+  run_ops rd_ex_cfg rd_ex_fix rd_ex_msg rd_ex_ops =
+  [VPtr (Ok p0); VPtr (Ok p1); VBytes (Ok (Some [104; 105])); VPtr (Ok p2); VPtr (Ok p3); VNum (Ok 2);
+   VTree (TStruct [42;0;0;0;0;0;0;0]
+            [TPrim 1 3 [104; 105; 0];
+             TComp 2 (mkOS 8 0) [TStruct [1;0;0;0;0;0;0;0] []; TStruct [2;0;0;0;0;0;0;0] []]]) 938;
+   VNum (Ok 938)].
+Proof. do 4 eexists. vm_compute. reflexivity. Qed.
